@@ -175,6 +175,8 @@ def f_backward(case):
     """forward on |psi> to obtain a record; then backward on sigma with {own record, explicit record, flipped, wrong length}."""
     N, prog = case['N'], case['prog']
     circ, gates = SO.build_circuit(N, prog, 'Circuit')
+    if case.get('compile'):
+        circ.compile()
     nmeas = sum(len(g['qubits']) for g in prog if g['kind'] == 'measure')
     S, _ = C.dec_state('np', {'rows': case['state']['rows'], 'r': 0})
     rng.seed_all(case['seed'])
@@ -243,7 +245,7 @@ def st_backward(hiN):
         {'N': st.just(N), 'prog': st_mprog(N, 8), 'state': st.fixed_dictionaries({'rows': gen.st_clifford_rows(N)}),
          'sigma': st.fixed_dictionaries({'rows': gen.st_clifford_rows(N)}), 'seed': gen.st_seed(),
          'mode': st.sampled_from(['own', 'same-state', 'same-state', 'explicit', 'flipped', 'wrong-length']),
-         'bits': st.lists(st.booleans(), min_size=1, max_size=6)}))
+         'bits': st.lists(st.booleans(), min_size=1, max_size=6), 'compile': st.booleans()}))
 
 
 FACETS = [
